@@ -1,11 +1,18 @@
 import MosdnsVerif.Model.C03Store
 import MosdnsVerif.Gen.Facts
 
-/-! C03, redirect x cache over several queries (Model.C03Store): with `copyNoOpt` allocating the stored message's own
-Question slice (fact `c03CacheStoreCopiesQuestion`) no entry of any cache is ever changed after it was stored, whatever
-chain of redirects, caches and accepts runs whatever query (`run_keeps_entries`); with a shared slice the usual
-configuration redirect -> cache -> forward answers a direct query for the redirect target with the alias as question
-(`shared_question_is_wrong`). -/
+/-! C03, redirect x cache over several queries (Model.C03Store).
+
+* With `copyNoOpt` allocating the stored message's own Question slice (fact `c03CacheStoreCopiesQuestion`) no entry of
+  any cache is ever changed after it was stored, whatever chain of redirects, caches and accepts runs whatever query
+  (`run_keeps_entries`); with a shared slice the usual configuration redirect -> cache -> forward answers a direct query
+  for the redirect target with the alias as question (`shared_question_is_wrong`).
+* With `cache.Exec` storing only a response that is new since the rest of its chain ran (fact
+  `c03CacheStoresOnlyNewResponse`, finding F16) every entry a cache stores carries the question the cache was asked:
+  `Sound` is preserved by every chain from every context, also one that already holds a response produced for another
+  question (`run_post`), so every query of a history gets its own ID and question (`history_own_question`); comparing
+  with the cache's own hit only, a response set in front of a redirect is stored under the target's key
+  (`stores_earlier_response_is_wrong`). -/
 namespace Props.C03Store
 open Model.C03Store
 
@@ -27,18 +34,26 @@ def Keeps (w w' : World) : Prop := Unshared w' ∧ ∃ new, w'.entries = new ++ 
 
 theorem keeps_refl (w : World) (h : Unshared w) : Keeps w w := ⟨h, [], rfl⟩
 
-theorem keeps_store (w w' : World) (h : Keeps w w') (e : Entry) (he : e.shared = none) (f : Nat) :
-    Keeps w { w' with entries := e :: w'.entries, fresh := f } := by
-  obtain ⟨hu, new, hn⟩ := h
-  refine ⟨?_, e :: new, by simp [hn]⟩
-  intro x hx
-  rcases List.mem_cons.mp hx with rfl | hx
-  · exact he
-  · exact hu x hx
+theorem keeps_finish (w : World) (i : Nat) (key : Bytes × Bool) (before : Option Nat) (res : Ctx × World)
+    (h : Keeps w res.2) : Keeps w (finishCache true i key before res).2 := by
+  unfold finishCache
+  split
+  · next r _ =>
+    split
+    · exact h
+    · obtain ⟨hu, new, hn⟩ := h
+      refine ⟨?_, { cache := i, key := key, qname := r.qname, rcode := r.rcode, shared := none } :: new, by simp [store, hn]⟩
+      intro x hx
+      simp only [store] at hx
+      rcases List.mem_cons.mp hx with rfl | hx
+      · rfl
+      · exact hu x hx
+  · exact h
 
 /-- **Stored entries are immutable when the stored message has its own Question slice**: any chain, any query, any
-earlier contents of the caches. -/
-theorem run_keeps_entries (chain : List Plug) : ∀ (c : Ctx) (w : World), Unshared w → Keeps w (run true chain c w).2 := by
+earlier contents of the caches, either store condition. -/
+theorem run_keeps_entries (sn : Bool) (chain : List Plug) :
+    ∀ (c : Ctx) (w : World), Unshared w → Keeps w (run true sn chain c w).2 := by
   induction chain with
   | nil =>
     intro c w hw
@@ -58,7 +73,7 @@ theorem run_keeps_entries (chain : List Plug) : ∀ (c : Ctx) (w : World), Unsha
       simp only [run]
       split
       · have h := ih { c with qname := target } w hw
-        generalize run true rest { c with qname := target } w = res at h
+        generalize run true sn rest { c with qname := target } w = res at h
         obtain ⟨c2, w2⟩ := res
         simp only at h ⊢
         split
@@ -74,29 +89,198 @@ theorem run_keeps_entries (chain : List Plug) : ∀ (c : Ctx) (w : World), Unsha
       split
       · next e _ =>
         have hw' : Unshared { w with fresh := w.fresh + 2 } := hw
-        have h := ih { c with resp := some { id := c.qid, qname := e.qname, rcode := e.rcode, obj := w.fresh, qcell := w.fresh + 1 } }
-          { w with fresh := w.fresh + 2 } hw'
-        generalize run true rest { c with resp := some { id := c.qid, qname := e.qname, rcode := e.rcode, obj := w.fresh, qcell := w.fresh + 1 } }
-          { w with fresh := w.fresh + 2 } = res at h
-        obtain ⟨c2, w2⟩ := res
-        simp only at h ⊢
-        have h0 : Keeps w w2 := h
-        split
-        · split
-          · exact h0
-          · exact keeps_store w w2 h0 _ rfl _
-        · exact h0
-      · have h := ih c w hw
-        generalize run true rest c w = res at h
-        obtain ⟨c2, w2⟩ := res
-        simp only at h ⊢
-        split
-        · exact keeps_store w w2 h _ rfl _
-        · exact h
+        exact keeps_finish w _ _ _ _ (ih { c with resp := some (hitResp c w e) } { w with fresh := w.fresh + 2 } hw')
+      · exact keeps_finish w _ _ _ _ (ih c w hw)
 
-/-- over a whole history: the caches only ever grow by unshared entries -/
-theorem history_keeps (chain : List Plug) (c : Ctx) (w : World) (hw : Unshared w) :
-    Unshared (run true chain c w).2 := (run_keeps_entries chain c w hw).1
+/-! ### Every stored entry carries the question its cache was asked (F16) -/
+
+/-- the caches' contents: unshared entries whose question is the question of their key -/
+def Sound (w : World) : Prop := ∀ e ∈ w.entries, e.shared = none ∧ e.qname = e.key.1
+
+theorem Sound.unshared {w : World} (h : Sound w) : Unshared w := fun e he => (h e he).1
+
+/-- What a chain does to a context that may already hold a response (objects below `w.fresh` existed before):
+the query is restored; a response object that is NEW carries the query's question and ID; an OLD one is the object the
+context held before, possibly renamed by a redirect to the query's name. -/
+structure Post (c : Ctx) (w : World) (c' : Ctx) (w' : World) : Prop where
+  qname : c'.qname = c.qname
+  qid : c'.qid = c.qid
+  cd : c'.cd = c.cd
+  mono : w.fresh ≤ w'.fresh
+  sound : Sound w'
+  wf : ∀ r', c'.resp = some r' → r'.obj < w'.fresh
+  new : ∀ r', c'.resp = some r' → w.fresh ≤ r'.obj → r'.qname = c.qname ∧ r'.id = c.qid
+  old : ∀ r', c'.resp = some r' → r'.obj < w.fresh →
+    ∃ r, c.resp = some r ∧ r.obj = r'.obj ∧ r'.id = r.id ∧ (r'.qname = r.qname ∨ r'.qname = c.qname)
+
+theorem post_stay (c : Ctx) (w : World) (hs : Sound w) (hp : ∀ r, c.resp = some r → r.obj < w.fresh) : Post c w c w :=
+  ⟨rfl, rfl, rfl, Nat.le_refl _, hs, hp,
+   fun r' hr hge => absurd (hp r' hr) (by omega),
+   fun r' hr _ => ⟨r', hr, rfl, rfl, Or.inl rfl⟩⟩
+
+theorem lookup_sound (w : World) (hs : Sound w) (i : Nat) (key : Bytes × Bool) (e : Entry)
+    (h : lookup w i key = some e) : e.qname = key.1 := by
+  unfold lookup at h
+  have hm := List.mem_of_find?_eq_some h
+  have hp := List.find?_some h
+  simp only [Bool.and_eq_true, beq_iff_eq] at hp
+  rw [(hs e hm).2, hp.2]
+
+/-- `finishCache` with a store condition that only lets responses for the key's question through -/
+theorem finish_sound (i : Nat) (key : Bytes × Bool) (before : Option Nat) (res : Ctx × World) (hs : Sound res.2)
+    (h : ∀ r, res.1.resp = some r → before ≠ some r.obj → r.qname = key.1) :
+    (finishCache true i key before res).1 = res.1 ∧ (finishCache true i key before res).2.fresh = res.2.fresh ∧
+      Sound (finishCache true i key before res).2 := by
+  unfold finishCache
+  split
+  · next r hr =>
+    split
+    · exact ⟨rfl, rfl, hs⟩
+    · next hne =>
+      refine ⟨rfl, rfl, ?_⟩
+      intro x hx
+      simp only [store] at hx
+      rcases List.mem_cons.mp hx with rfl | hx
+      · exact ⟨rfl, h r hr hne⟩
+      · exact hs x hx
+  · exact ⟨rfl, rfl, hs⟩
+
+/-- **As built (own Question slice, only new responses are stored): any chain of redirects, caches and accepts in front
+of an echoing upstream, from any context - also one that already holds a response for another question.** -/
+theorem run_post (chain : List Plug) :
+    ∀ (c : Ctx) (w : World), Sound w → (∀ r, c.resp = some r → r.obj < w.fresh) →
+      Post c w (run true true chain c w).1 (run true true chain c w).2 := by
+  induction chain with
+  | nil =>
+    intro c w hs hp
+    simp only [run]
+    split
+    · exact post_stay c w hs hp
+    · refine ⟨rfl, rfl, rfl, by simp, hs, ?_, ?_, ?_⟩
+      · intro r' hr; simp only [Option.some.injEq] at hr; subst hr; simp
+      · intro r' hr _; simp only [Option.some.injEq] at hr; subst hr; exact ⟨rfl, rfl⟩
+      · intro r' hr hlt; simp only [Option.some.injEq] at hr; subst hr; simp at hlt
+  | cons p rest ih =>
+    intro c w hs hp
+    cases p with
+    | accept =>
+      simp only [run]
+      split
+      · exact post_stay c w hs hp
+      · exact ih c w hs hp
+    | redirect pat target =>
+      simp only [run]
+      split
+      · have h := ih { c with qname := target } w hs hp
+        generalize run true true rest { c with qname := target } w = res at h
+        obtain ⟨c2, w2⟩ := res
+        simp only at h ⊢
+        split
+        · next r hr =>
+          split
+          · next hrt =>
+            simp only
+            rw [renameShared_unshared _ h.sound.unshared]
+            refine ⟨rfl, h.qid, h.cd, h.mono, h.sound, ?_, ?_, ?_⟩
+            · intro r' hr'; simp only [Option.some.injEq] at hr'; subst hr'; exact h.wf r hr
+            · intro r' hr' hge; simp only [Option.some.injEq] at hr'; subst hr'
+              exact ⟨rfl, (h.new r hr hge).2⟩
+            · intro r' hr' hlt; simp only [Option.some.injEq] at hr'; subst hr'
+              obtain ⟨r0, h0, ho, hi, _⟩ := h.old r hr hlt
+              exact ⟨r0, h0, ho, hi, Or.inr rfl⟩
+          · next hrt =>
+            refine ⟨rfl, h.qid, h.cd, h.mono, h.sound, ?_, ?_, ?_⟩
+            · intro r' hr'; exact h.wf r' hr'
+            · intro r' hr' hge
+              have hr'' : c2.resp = some r' := hr'
+              rw [hr] at hr''; simp only [Option.some.injEq] at hr''; subst hr''
+              exact absurd (h.new r hr hge).1 hrt
+            · intro r' hr' hlt
+              have hr'' : c2.resp = some r' := hr'
+              rw [hr] at hr''; simp only [Option.some.injEq] at hr''; subst hr''
+              obtain ⟨r0, h0, ho, hi, hq⟩ := h.old r hr hlt
+              rcases hq with hq | hq
+              · exact ⟨r0, h0, ho, hi, Or.inl hq⟩
+              · exact absurd hq hrt
+        · next hr =>
+          refine ⟨rfl, h.qid, h.cd, h.mono, h.sound, ?_, ?_, ?_⟩
+          · intro r' hr'; have : c2.resp = some r' := hr'; rw [hr] at this; cases this
+          · intro r' hr'; have : c2.resp = some r' := hr'; rw [hr] at this; cases this
+          · intro r' hr'; have : c2.resp = some r' := hr'; rw [hr] at this; cases this
+      · exact ih c w hs hp
+    | cache i =>
+      simp only [run, ↓reduceIte]
+      split
+      · next e he =>
+        have heq : e.qname = c.qname := lookup_sound w hs i (c.qname, c.cd) e he
+        have hs1 : Sound { w with fresh := w.fresh + 2 } := hs
+        have hp1 : ∀ r, ({ c with resp := some (hitResp c w e) } : Ctx).resp = some r → r.obj < ({ w with fresh := w.fresh + 2 } : World).fresh := by
+          intro r hr; simp only [Option.some.injEq] at hr; subst hr; simp [hitResp]
+        have h := ih { c with resp := some (hitResp c w e) } { w with fresh := w.fresh + 2 } hs1 hp1
+        generalize run true true rest { c with resp := some (hitResp c w e) } { w with fresh := w.fresh + 2 } = res at h
+        -- every response the rest hands back is the hit itself or a new one for the query's question
+        have hold : ∀ r', res.1.resp = some r' → r'.obj < w.fresh + 2 →
+            r'.obj = w.fresh ∧ r'.id = c.qid ∧ r'.qname = c.qname := by
+          intro r' hr' hlt
+          obtain ⟨r0, h0, ho, hi, hq⟩ := h.old r' hr' hlt
+          simp only [Option.some.injEq] at h0; subst h0
+          refine ⟨by rw [← ho]; rfl, by rw [hi]; rfl, ?_⟩
+          rcases hq with hq | hq
+          · rw [hq]; exact heq
+          · exact hq
+        obtain ⟨f1, f2, f3⟩ := finish_sound i (c.qname, c.cd) (some w.fresh) res h.sound (by
+          intro r hr hne
+          by_cases hlt : r.obj < w.fresh + 2
+          · exact absurd (by rw [(hold r hr hlt).1]) hne
+          · exact (h.new r hr (by simp only at hlt ⊢; omega)).1)
+        refine ⟨by rw [f1]; exact h.qname, by rw [f1]; exact h.qid, by rw [f1]; exact h.cd,
+          by rw [f2]; have := h.mono; simp only at this; omega, f3, ?_, ?_, ?_⟩
+        · intro r' hr'; rw [f1] at hr'; rw [f2]; exact h.wf r' hr'
+        · intro r' hr' hge
+          rw [f1] at hr'
+          by_cases hlt : r'.obj < w.fresh + 2
+          · exact ⟨(hold r' hr' hlt).2.2, (hold r' hr' hlt).2.1⟩
+          · exact h.new r' hr' (by simp only at hlt ⊢; omega)
+        · intro r' hr' hlt
+          rw [f1] at hr'
+          have := (hold r' hr' (by omega)).1
+          omega
+      · have h := ih c w hs hp
+        generalize run true true rest c w = res at h
+        obtain ⟨f1, f2, f3⟩ := finish_sound i (c.qname, c.cd) (c.resp.map (·.obj)) res h.sound (by
+          intro r hr hne
+          by_cases hlt : r.obj < w.fresh
+          · obtain ⟨r0, h0, ho, _, _⟩ := h.old r hr hlt
+            exact absurd (by simp [h0, ho]) hne
+          · exact (h.new r hr (by omega)).1)
+        refine ⟨by rw [f1]; exact h.qname, by rw [f1]; exact h.qid, by rw [f1]; exact h.cd, by rw [f2]; exact h.mono, f3, ?_, ?_, ?_⟩
+        · intro r' hr'; rw [f1] at hr'; rw [f2]; exact h.wf r' hr'
+        · intro r' hr' hge; rw [f1] at hr'; exact h.new r' hr' hge
+        · intro r' hr' hlt; rw [f1] at hr'; exact h.old r' hr' hlt
+
+/-- every query of a history gets a reply with its own ID and question, and the caches stay sound -/
+theorem history_own_question (chain : List Plug) :
+    ∀ (qs : List (Nat × Bytes × Bool)) (w : World), Sound w →
+      (history true true chain qs w).map (fun r => (r.1, r.2.1)) = qs.map (fun q => (q.1, q.2.1)) := by
+  intro qs
+  induction qs with
+  | nil => intro w _; rfl
+  | cons q t ih =>
+    intro w hs
+    obtain ⟨id, name, cd⟩ := q
+    have h := run_post chain { qid := id, qname := name, cd := cd, resp := none } w hs (by intro r hr; cases hr)
+    simp only [history, List.map_cons]
+    rw [ih _ h.sound]
+    congr 1
+    unfold replyOf
+    split
+    · next r hr =>
+      by_cases hlt : r.obj < w.fresh
+      · obtain ⟨r0, h0, _⟩ := h.old r hr hlt
+        cases h0
+      · have := h.new r hr (by omega)
+        simp [this.1, this.2]
+    · simp [h.qid, h.qname]
 
 /-! ### The usual configuration: redirect(alias -> target) -> cache -> [has_resp] accept -> forward -/
 def alias : Bytes := [97, 46]
@@ -106,20 +290,45 @@ def usual : List Plug := [.redirect alias target, .cache 0, .accept]
 /-- alias (miss: stored under the target's key), then the target asked directly (hit), then the alias again:
 as built, every reply carries its own ID and question -/
 theorem own_question_as_built :
-    history true usual [(1001, alias, false), (1002, target, false), (1003, alias, false)] {} =
+    history true true usual [(1001, alias, false), (1002, target, false), (1003, alias, false)] {} =
       [(1001, alias, 0), (1002, target, 0), (1003, alias, 0)] := by decide
 
 /-- with the stored message sharing its Question slice with the live reply, redirect's in-place restore renames the
 stored entry: the direct query for the target is answered with the alias as question -/
 theorem shared_question_is_wrong :
-    history false usual [(1001, alias, false), (1002, target, false), (1003, alias, false)] {} =
+    history false true usual [(1001, alias, false), (1002, target, false), (1003, alias, false)] {} =
       [(1001, alias, 0), (1002, alias, 0), (1003, alias, 0)] := by decide
 
 /-- the cache above the redirect is not affected either way -/
 theorem cache_above_redirect_either_way (b : Bool) :
-    history b [.cache 0, .accept, .redirect alias target] [(1, alias, false), (2, target, false), (3, alias, false)] {} =
+    history b true [.cache 0, .accept, .redirect alias target] [(1, alias, false), (2, target, false), (3, alias, false)] {} =
       [(1, alias, 0), (2, target, 0), (3, alias, 0)] := by cases b <;> decide
 
-theorem facts_guard_store : Gen.Facts.c03CacheStoreCopiesQuestion = some true := by decide
+/-! ### F16: cache -> redirect(alias -> target) -> cache -> [!has_resp] forward, the upper cache holding an entry for the
+alias the lower cache has none for (the lower one did not keep the empty answer; the upper one kept it with redirect's
+CNAME) -/
+def twoCaches : List Plug := [.cache 0, .redirect alias target, .cache 1]
+def upperOnly : World := { entries := [{ cache := 0, key := (alias, false), qname := alias, rcode := 0, shared := none }], fresh := 0 }
+
+theorem upperOnly_sound : Sound upperOnly := by
+  intro e he
+  simp only [upperOnly, List.mem_singleton] at he
+  subst he
+  exact ⟨rfl, rfl⟩
+
+/-- the store condition before F16 (`cachedResp != r`): the upper cache's hit for the alias reaches the lower cache
+behind the redirect, which misses and stores it under the TARGET's key; the direct query for the target is answered
+with the alias as question -/
+theorem stores_earlier_response_is_wrong :
+    history true false twoCaches [(1002, alias, false), (1003, target, false)] upperOnly =
+      [(1002, alias, 0), (1003, alias, 0)] := by decide
+
+/-- as built (`rBefore != r`) -/
+theorem stores_only_new_response_as_built :
+    history true true twoCaches [(1002, alias, false), (1003, target, false)] upperOnly =
+      [(1002, alias, 0), (1003, target, 0)] := by decide
+
+theorem facts_guard_store :
+    Gen.Facts.c03CacheStoreCopiesQuestion = some true ∧ Gen.Facts.c03CacheStoresOnlyNewResponse = some true := by decide
 
 end Props.C03Store
